@@ -46,6 +46,15 @@ PROPS = {
         "level_note": "the individual verifier is the reference here (its own correctness is C02/C03/C10's business); streaming verify_multi_points takes its batching challenge from the caller, negative cases use a generic challenge",
         "technique": "explicit-state differential enumeration of batch edits on the real verifiers",
     },
+    "C10": {
+        "rule": "E3 single-fault neighbourhood of accepting transcripts: every verifier-visible component (each commitment part, degree-bound label, value, point coordinate, each proof field and vector element, each verifier-key element incl. shift elements) x replacement alphabet {identity/zero, generator/one, generic, +G/+1, corresponding component of another transcript}; oracle = independent implementation of the published relation with the same challenge derivation; distinct = (scheme, component class, relation verdict, library decision class)",
+        "assumptions": TRUSTED + ["Brakedown's row encoding is taken from the public LinearEncode::encode (its linearity and length are checked under C13)"],
+        "require": {"classes": ["relation-holds", "relation-fails", "lib-accept", "lib-reject"], "dims": {"scheme": ALL_SCHEMES + ["KZG", "MLP", "STR"]}},
+        "level_text": "bounded exhaustive comparison, in both directions, of every real verifier with an independently written reference verification relation over the complete single-component replacement neighbourhood of the transcripts in scope",
+        "design_ref": "DESIGN.md sections 3.5 and 4 C10",
+        "level_note": "reference relations are written from the protocol descriptions with naive group arithmetic; only transcripts of the right shape are compared (shape mutations belong to C03/C05)",
+        "technique": "explicit-state differential enumeration: real verifier vs reference relation on all single-component replacements",
+    },
 }
 
 HOOK_COMMITS = ["512e10f"]
